@@ -762,6 +762,44 @@ fn value_checks(rec: &mut Rec, map: &Beatmap, diff: &rosu_pp::Difficulty, label:
     if total == 0 {
         return;
     }
+    // the MODE-SPECIFIC gradual performance calculators have entry points of their own (next / nth / last): stepping one with
+    // next() must give what the generic wrapper gives with next() (which goes through nth), and last() must give the last value
+    {
+        let st = score_state(2);
+        let r = guarded(|| {
+            let mut generic = GradualPerformance::new(diff.clone(), map);
+            let n = total.min(40);
+            let g: Vec<String> = (0..n).map(|_| format!("{:?}", generic.next(st.clone()))).collect();
+            let glast = format!("{:?}", GradualPerformance::new(diff.clone(), map).last(st.clone()));
+            macro_rules! own {
+                ($ty:ty, $variant:ident) => {{
+                    let mut c = <$ty>::new(diff.clone(), map).expect("mode of the map");
+                    let v: Vec<String> = (0..n).map(|_| format!("{:?}", c.next(st.clone().into()).map(rosu_pp::any::PerformanceAttributes::$variant))).collect();
+                    let l = format!("{:?}", <$ty>::new(diff.clone(), map).expect("mode of the map").last(st.clone().into()).map(rosu_pp::any::PerformanceAttributes::$variant));
+                    (v, l)
+                }};
+            }
+            let (own, olast) = match map.mode {
+                rosu_pp::model::mode::GameMode::Osu => own!(rosu_pp::osu::OsuGradualPerformance, Osu),
+                rosu_pp::model::mode::GameMode::Taiko => own!(rosu_pp::taiko::TaikoGradualPerformance, Taiko),
+                rosu_pp::model::mode::GameMode::Catch => own!(rosu_pp::catch::CatchGradualPerformance, Catch),
+                rosu_pp::model::mode::GameMode::Mania => own!(rosu_pp::mania::ManiaGradualPerformance, Mania),
+            };
+            (g, glast, own, olast)
+        });
+        rec.value_checks += 1;
+        match r {
+            Err(p) => rec.value_mism.push(json!({"api": "perf", "label": label, "what": "panic", "observed": p})),
+            Ok((g, glast, own, olast)) => {
+                if let Some(i) = (0..g.len()).find(|&i| g[i] != own[i]) {
+                    rec.value_mism.push(json!({"api": "perf", "label": label, "what": "mode-specific next() vs generic next()", "i": i + 1, "expected": g[i].chars().take(400).collect::<String>(), "observed": own[i].chars().take(400).collect::<String>()}));
+                }
+                if glast != olast {
+                    rec.value_mism.push(json!({"api": "perf", "label": label, "what": "mode-specific last() vs generic last()", "expected": glast.chars().take(400).collect::<String>(), "observed": olast.chars().take(400).collect::<String>()}));
+                }
+            }
+        }
+    }
     let mut idxs: Vec<usize> = if total <= 16 { (0..total).collect() } else { (0..12).map(|k| k * (total - 1) / 11).collect() };
     if total > 2 {
         idxs.push(total - 2);
